@@ -1,7 +1,7 @@
 NOT_APPLICABLE = {}
 CLAIMED = {
  "C04": {
-  "technique": "must-hold lockset dataflow + dominator ordering + effect-summary ownership partition over SSA/VTA",
+  "technique": "must-hold lockset dataflow + dominator ordering + effect-summary ownership partition over SSA/VTA; who-may-store rule on the pending-request table, release-on-every-path walk for the transaction lock, lossless-key value-flow rule",
   "text": "Sound static decision of the schedule-independent ingredients of C04: lock discipline on the transaction table, registration-before-transport-write ordering, one critical section for lookup+delete, reader/writer ownership partition. It does not enumerate schedules; 'none lost/none twice' follows from these invariants by argument (DESIGN §3 C04).",
   "note": "Trusts sync.Mutex, bufio.Writer semantics, go/ssa and the VTA call graph; entry points of the two goroutine roles are a frozen table.",
  },
@@ -12,7 +12,7 @@ CLAIMED = {
   "note": "Dispatchers must stay switch statements (otherwise the rule reports 'undecided'); trusts reflect, encoding/binary, the C05 child contracts.",
  },
  "C15": {
-  "technique": "must-hold lockset dataflow (channel-mutex and select forms), path counting on the CFG condensation, guard/dominator facts, effect-summary ownership",
+  "technique": "must-hold lockset dataflow (channel-mutex and select forms), path counting on the CFG condensation, guard/dominator facts, effect-summary ownership (incl. storage handed out as slices and buffers owned by the message writer), static-call reachability rule for the reading goroutine's role",
   "text": "Sound static decision of the three schedule-independent invariants behind C15: every transport write under the write mutex, one critical section per frame, sticky close-sent latch checked and set under the mutex; plus the concurrent-safe API touching only immutable or lock-guarded fields. Interleavings are not enumerated.",
   "note": "Trusts the 1-slot channel as mutex idiom, net.Conn.Write, sync.Mutex.",
  },
@@ -27,7 +27,7 @@ CLAIMED = {
   "note": "Trusts encoding/json and net/http; arbitrary value trees are not enumerated.",
  },
  "C20": {
-  "technique": "guard/dominator sign analysis of rate divisions, constant evaluation of window lengths, sibling agreement of getters, must-pass-through of state updates over SSA",
+  "technique": "guard/dominator sign analysis of rate divisions, constant evaluation of window lengths, sibling agreement of getters, must-pass-through of state updates over SSA (both directions: updated implies true, touched implies not false), conversion-width scan of the rate operands, paired-store rule for the average's baseline",
   "text": "Sound static decision of: every rate division guarded by growth>0 and a positive divisor with the 0 branch, started-guard on all 8 getters, identical unit scaling among sibling getters, per-window formula ingredients and state updates. Numerical equality over histories is not decided.",
   "note": "Trusts float64 arithmetic on positive finite operands.",
  },
@@ -89,7 +89,7 @@ CLAIMED = {
  },
 
  "C13": {
-  "technique": "bit-provenance abstract interpretation of both frame writers over symbolic payload lengths (role x length form x FIN x RSV1 x opcode variants; masking and the transport stubbed by contracts), store/guard rules for fragment sequencing, constant and call-sequence rules for the handshake",
+  "technique": "bit-provenance abstract interpretation of both frame writers over symbolic payload lengths (role x length form x FIN x RSV1 x opcode variants; masking and the transport stubbed by contracts), store/guard rules for fragment sequencing, constant and call-sequence rules for the handshake; dataflow rules on the masking side (key-position accounting inside maskBytes, position 0 for every frame written, per-frame flag must-pass, may-armed deadline analysis in Dial)",
   "text": "For all payload lengths at once and every role/length-form/FIN/compression/opcode combination: the bytes handed to the transport are exactly the RFC 6455 frame header (correct length form and length value, mask bit and key iff client) followed by the payload; invalid control frames never reach the transport; fragment sequencing state is reset as required; accept key and handshake tests present. Payload integrity through the buffering/compression layers is not decided.",
   "note": "maskBytes (unsafe word-wise XOR) and net.Conn are contracts; layout transcribed from RFC 6455 5.2.",
  },
@@ -101,7 +101,7 @@ CLAIMED = {
  },
 
  "C16": {
-  "technique": "switch/table extraction over go/types (sibling agreement sign<->verify, wrap<->unwrap, constructor<->codec, against transcribed RFC 7518 tables), guard/dominator rules for the verification and decryption gates, value-flow rules for the authenticated bytes",
+  "technique": "switch/table extraction over go/types (sibling agreement sign<->verify, wrap<->unwrap, constructor<->codec, against transcribed RFC 7518 tables), guard/dominator rules for the verification and decryption gates, value-flow rules for the authenticated bytes, the CBC-HMAC key halves and the nil-buffer contract, loop-variable escape analysis",
   "text": "Sound static decision of the repository's own JOSE glue: algorithm tables agree between siblings and with RFC 7518, payload/plaintext are released only behind the verification/decryption/tag-comparison gates, failure is decided by errors not by plaintext nil-ness, authenticated bytes are the received header, fixed-width ECDSA components. The cryptographic behaviour across the algorithm matrix and bit flips is not decided (crypto/* trusted).",
   "note": "Tables must stay switch statements (otherwise 'undecided'); RFC 7518 tables transcribed in DESIGN Appendix B.",
  },
